@@ -3071,6 +3071,8 @@ class sptensor:
             keep = cvals[:, 0] != 0
             return ttb.sptensor(self.subs[keep], cvals[keep], self.shape)
         if isinstance(other, ttb.ktensor):
+            if self.nnz == 0:
+                return self.copy()
             csubs = self.subs
             cvals = np.zeros(self.vals.shape)
             R = other.weights.size
@@ -3451,6 +3453,8 @@ class sptensor:
             return ttb.sptensor(csubs, cvals, self.shape)
         if isinstance(other, ttb.ktensor):
             # TODO consider removing epsilon and generating nans consistent with above
+            if self.nnz == 0:
+                return self.copy()
             epsilon = np.finfo(float).eps
             subs = self.subs
             vals = np.zeros(self.vals.shape)
